@@ -154,6 +154,32 @@ def optimize_events(tnode, envspec, strings=MC_STRINGS):
     return evs
 
 
+def optimize_traces(limit=None):
+    """optimize_type called directly (twice) on unions of 2-3 members drawn from a small universe that includes Optional and nested-union
+    members with repeated atoms -- what merge_field_sets hands over when models are merged: each pass must give a normal form and the
+    second must change nothing (C08 at the level of the public method)"""
+    from .project import N
+    A = lambda k: N(k)
+    lit = lambda *ids: N("lit", ls=list(ids))
+    opt = lambda x: N("opt", xs=[x])
+    uni = lambda *xs: N("union", xs=list(xs))
+    lst = lambda x: N("list", xs=[x])
+    eight_a = ["a", "b", "c", "d", "sA", "sB", "sC", "sLong"][:7] + ["sInt"]
+    atoms = [A("int"), A("float"), A("bool"), A("str"), N("pseudo", "IntString"), N("pseudo", "FloatString"), lit("a", "b"), lit("c", "d"),
+             opt(A("int")), opt(A("float")), opt(lit("a", "c")), opt(uni(A("int"), lit("b", "d"))), opt(uni(A("float"), N("pseudo", "IntString"))),
+             lst(A("int")), opt(lst(A("float"))), opt(uni(lst(A("int")), A("bool"))), A("null"), opt(N("litover"))]
+    unions = [uni(a, b) for a in atoms for b in atoms] + [uni(a, b, c) for a in atoms[:12] for b in atoms[6:] for c in atoms[8:14]]
+    traces, inputs = [], {}
+    for i, u in enumerate(unions[:limit]):
+        try:
+            evs = optimize_events(u, {})
+        except Exception as e:
+            continue
+        traces.append({"id": "opt%d" % i, "events": evs})
+        inputs["opt%d" % i] = {"type": u}
+    return traces, inputs
+
+
 # ---------------------------------------------------------------------- loop A + B
 CFG_INFER = """SPECIFICATION Spec
 CONSTANTS
